@@ -267,8 +267,10 @@ class FakeTransport(asyncio.Transport):
         if self._lost:
             return False
         self.conn.reset = True
-        self._closing = True
-        self._call_connection_lost(exc or ConnectionResetError(104, "Connection reset by peer (injected)"))
+        # like a selector transport whose recv() failed: _fatal_error -> _force_close ->
+        # call_soon(connection_lost).  connection_lost therefore never runs in the same loop
+        # iteration as a preceding data_received (the reader task woken by the data runs first).
+        self._force_close(exc or ConnectionResetError(104, "Connection reset by peer (injected)"))
         return True
 
     def env_resume(self):
